@@ -424,6 +424,58 @@ func TestVerifC14(t *testing.T) {
 		}
 		r.Eval("mixed:" + c.cls)
 	})
+	// ------------------------------------------------------------ a generator object belongs to the caller
+	// NewSM2Generator hands out the base point as an object of the caller's: it is driven through every mutator in place,
+	// and afterwards a fresh generator must still be G, earlier generators that were kept must still be G, and the
+	// multiplications that start from the generator must still be right
+	for h := 0; h < hk.N(30, 300); h++ {
+		lr := hk.NewRNG(hk.Seed(), fmt.Sprintf("c14gen/%d", h))
+		kept := NewSM2Generator()
+		g := NewSM2Generator()
+		B := ref.BaseMulFast(zvRandScalarI(lr))
+		qb := zvFromRef(B, new(big.Int).SetBytes(lr.Bytes(9)))
+		shadow := ref.G()
+		var hist []string
+		for step := 0; step < 3; step++ {
+			switch lr.Intn(5) {
+			case 0:
+				g.Double(g)
+				shadow = shadow.Dbl()
+				hist = append(hist, "g.Double(g)")
+			case 1:
+				g.Add(g, qb)
+				shadow = shadow.Add(B)
+				hist = append(hist, "g.Add(g,Q)")
+			case 2:
+				g.Negate(g)
+				shadow = shadow.Neg()
+				hist = append(hist, "g.Negate(g)")
+			case 3:
+				g.Set(qb)
+				shadow = B
+				hist = append(hist, "g.Set(Q)")
+			default:
+				g.Add(qb, g)
+				shadow = B.Add(shadow)
+				hist = append(hist, "g.Add(Q,g)")
+			}
+		}
+		k := lr.Bytes(32)
+		fresh := NewSM2Generator()
+		km, _ := ScalarMult(NewSM2Generator(), k)
+		kb, _ := ScalarBaseMult(k)
+		g0, _ := zvToRef(g)
+		g1, _ := zvToRef(fresh)
+		g2, _ := zvToRef(kept)
+		g3, _ := zvToRef(km)
+		g4, _ := zvToRef(kb)
+		wantK := ref.BaseMulFast(ref.ModN(new(big.Int).SetBytes(k)))
+		if !g0.Eq(shadow) || !g1.Eq(ref.G()) || !g2.Eq(ref.G()) || km == nil || kb == nil || !g3.Eq(wantK) || !g4.Eq(wantK) {
+			r.Violation("generator-objects-share-state", hk.D{"history": hist, "updated_object_ok": g0.Eq(shadow), "fresh_generator": zvPtHex(g1), "generator_kept_from_before": zvPtHex(g2), "scalar_mult_of_generator_ok": km != nil && g3.Eq(wantK), "base_mult_ok": kb != nil && g4.Eq(wantK)})
+			break
+		}
+		r.Eval("generator-objects-belong-to-the-caller")
+	}
 	// ------------------------------------------------------------ points built by NewFromXY belong to the caller too
 	// (the routines build their table operands with it): each is driven through every mutator in place; afterwards the
 	// package must still multiply correctly and a fresh NewFromXY point must still be the affine point it was given
